@@ -53,6 +53,8 @@ def generate(ctx):
                      delayed=rng.random() < 0.6,
                      # the sum reduction (and every hyper-parameter) given for the cell only; the trainer-wide defaults differ
                      per_cell=rng.random() < 0.5)
+            if "Kernel" in d["trainer"] and rng.random() < 0.6:
+                d["kernel"] = "osc"       # user kernel whose sign changes with the time difference: samples can pull opposite ways
             d["dtype"] = "float32"
         yield d
     # delay-aware training on every connection type (the trainer reads per-synapse delayed presynaptic histories per sample)
@@ -61,7 +63,8 @@ def generate(ctx):
             yield {"kind": "trainer", "B": rng.randint(2, 4), "dt": rng.choice([1.0, 0.5]), "T": rng.randint(6, 10),
                    "seed": rng.randrange(1 << 30), "dtype": "float32", "resize_from": None, "warm": 0, "clear_at": None,
                    "trainer": tname, "conn": conn, "delay": 2, "delayed": True, "signs": rng.randrange(4),
-                   "trace_mode": rng.choice(["cumulative", "nearest"]), "per_cell": rng.random() < 0.5}
+                   "trace_mode": rng.choice(["cumulative", "nearest"]), "per_cell": rng.random() < 0.5,
+                   **({"kernel": "osc"} if tname == "KernelSTDP" else {})}
 
 
 def _np(t):
@@ -288,7 +291,10 @@ def _trainer(ctx, desc):
     from rv.monitors import c08
     a, b = c08.SIGNS[desc.get("signs", 0)]
     hyper = {"lr_a": a, "lr_b": b, "trace_mode": desc.get("trace_mode", "cumulative"),
-             "delayed": bool(desc.get("delayed")) and bool(desc["delay"])}      # the delay-aware mode of the trainers that have one
+             "delayed": bool(desc.get("delayed")) and bool(desc["delay"]),      # the delay-aware mode of the trainers that have one
+             "kernel": desc.get("kernel")}
+    if desc.get("kernel"):
+        ctx.count("trainer_cases_with_sign_changing_user_kernel")
     hb = tr.Harness(desc["trainer"], desc["conn"], dt=desc["dt"], B=B, delay_steps=desc["delay"], seed=desc["seed"],
                     batch_reduction=torch.sum, hyper=hyper, per_cell=bool(desc.get("per_cell")))
     hs = [tr.Harness(desc["trainer"], desc["conn"], dt=desc["dt"], B=1, delay_steps=desc["delay"], seed=desc["seed"],
